@@ -8,6 +8,8 @@ package main
 import (
 	"fmt"
 
+	"github.com/b2broker/simplefix-go/fix/encoding"
+	"github.com/b2broker/simplefix-go/session/messages"
 	"vlib"
 )
 
@@ -170,8 +172,37 @@ func c03Check(R *vlib.Out, b baseMsg, v []byte, kind string, pos, bt int) {
 			return
 		}
 	}
+	// the same variant through an unmarshaller whose field validator is the application's own (a decorator around the
+	// default one, as an application adding a rule writes it): the integrity check is not the validator's business
+	if c03Evals%3 == 0 {
+		for _, strict := range []bool{true, false} {
+			p := b.T.message(emptyPops(b.T.Hdr), emptyPops(b.T.Body), emptyPops(b.T.Trl))
+			data := make([]byte, len(v))
+			copy(data, v)
+			var err error
+			func() {
+				defer func() {
+					if r := recover(); r != nil {
+						err = fmt.Errorf("PANIC %v", r)
+					}
+				}()
+				err = (&encoding.DefaultUnmarshaller{Strict: strict, Validator: decoratedValidator{}}).Unmarshal(p, data)
+			}()
+			if err == nil {
+				sig := "application-validator:" + c03sig(b, v, kind, pos, bt)
+				R.Violate(sig, fmt.Sprintf("strict=%v accepted %s through a DefaultUnmarshaller with an application validator (base %s; %s at %d byte 0x%02x)", strict, vlib.Show(v), vlib.Show(b.Data), kind, pos, bt),
+					c03Replay{b.T, v, kind, pos, bt, b.Data, hist.Shard, hist.NShards, hist.NBase, hist.Eval})
+				return
+			}
+		}
+	}
 	R.Outcome("rejected:" + kind)
 }
+
+// decoratedValidator wraps the default field validator (and adds nothing): it implements Do and only Do.
+type decoratedValidator struct{ inner encoding.DefaultValidator }
+
+func (d decoratedValidator) Do(msg messages.Builder) error { return d.inner.Do(msg) }
 
 // c03sig names the damage class of an accepted variant: kind, the field it hit, and the byte when
 // that matters.
